@@ -73,36 +73,74 @@ class Unliftable(Exception):
     pass
 
 
-TWIN = False  # twin mode: small non-negative numeric constants are lowered as the *strings* that print the same
+TWIN = False  # twin mode: False, or the kind of twin ("str", "awaredt", "bigint", "tuple", "fraction", "decimal")
+TWIN_KINDS = ("str", "awaredt", "bigint", "tuple", "fraction", "decimal")
 
 
 class twin:
-    """with lift.twin(): ... -- lower / lift in twin mode.  The digit strings "0".."9" (and "2.5" etc.) are ordered like
-    the numbers they spell, so a twin tree is the same tree over an order-isomorphic set of constants of another type:
-    everything the library does through ==, <, hashing must come out isomorphic (the Lean model is generic in the
-    constant type).  What twin mode catches: anything keyed on how a constant *prints* (caches keyed by repr, str())."""
+    """with lift.twin(kind): ... -- lower / lift in twin mode: the small non-negative numeric constants 0, 0.5, ..., 9.5 are
+    lowered as values of ANOTHER Python type that are ordered (and equal / distinct, hashable) exactly like the numbers:
+      str       the strings that print the same ("1", "2.5"; single digits, so "1" < "2" < ...),
+      awaredt   timezone-aware datetimes 30 minutes apart whose UTC offsets differ, so that their wall-clock fields are ordered
+                differently from the instants they denote,
+      bigint    ints beyond 2**53 (consecutive ones collapse when converted to float),
+      tuple     pairs (1, k) (ordered lexicographically; a tuple is a legitimate hashable constant),
+      fraction  fractions.Fraction, decimal  decimal.Decimal (numbers that are not int / float instances).
+    A twin tree is the same tree over an order-isomorphic set of constants, so everything the library does through ==, <,
+    hashing must come out isomorphic (the Lean model is generic in the constant type).  What twin mode catches: anything keyed
+    on how a constant prints, on its type, or on a lossy conversion of it."""
+
+    def __init__(self, kind="str"):
+        self.kind = kind
 
     def __enter__(self):
         global TWIN
-        self.old, TWIN = TWIN, True
+        self.old, TWIN = TWIN, self.kind
 
     def __exit__(self, *a):
         global TWIN
         TWIN = self.old
 
 
-def _twin_str(c: int):
-    """the string twin of a numeric code, or None when the code has none (negative, > 9, not a number)"""
-    if 0 <= c <= 19:
+def _mk_twin(c: int, kind: str):
+    if kind == "str":
         return str(c // 2) if c % 2 == 0 else str(c / 2)
+    if kind == "awaredt":
+        from datetime import timedelta, timezone
+
+        off = timezone(timedelta(hours=((c * 7) % 9) - 4, minutes=30 * (c % 2)))
+        return (datetime(2024, 3, 10, 12, 0, tzinfo=timezone.utc) + timedelta(minutes=30 * c)).astimezone(off)
+    if kind == "bigint":
+        return 2**53 + 1 + c
+    if kind == "tuple":
+        return (1, c)
+    if kind == "fraction":
+        from fractions import Fraction
+
+        return Fraction(c, 2) + Fraction(1, 3)
+    if kind == "decimal":
+        from decimal import Decimal
+
+        return Decimal(c) / Decimal(2) + Decimal("0.25")
+    raise ValueError(kind)
+
+
+_TWINS = {k: {c: _mk_twin(c, k) for c in range(0, 20)} for k in TWIN_KINDS}
+_TWIN_BACK = {k: {v: c for c, v in d.items()} for k, d in _TWINS.items()}
+for _k, _d in _TWINS.items():  # order-isomorphic, pairwise distinct, hashable
+    _vs = [_d[c] for c in range(20)]
+    assert all(_vs[i] < _vs[i + 1] for i in range(19)) and len(set(_vs)) == 20, _k
+
+
+def _twin_str(c: int):
+    """the twin (of the current kind, default str) of a numeric code, or None when the code has none (negative, > 9.5, not a number)"""
+    if 0 <= c <= 19:
+        return _TWINS[TWIN or "str"][c]
     return None
 
 
-_TWIN_BACK = {_twin_str(c): c for c in range(0, 20)}
-
-
 def twinnable(sx) -> bool:
-    """every constant of the case has a string twin (or is not numeric at all)"""
+    """every constant of the case has a twin (or is not numeric at all)"""
     from . import sx as S
 
     for t in S.subterms(sx):
@@ -112,16 +150,27 @@ def twinnable(sx) -> bool:
                     k = int(c)
                 except (TypeError, ValueError):
                     return False
-                if k < STR_BASE and k != NONE_CODE and _twin_str(k) is None:
+                if k < STR_BASE and k != NONE_CODE and not (0 <= k <= 19):
                     return False
-                if k >= STR_BASE and STR_POOL[k - STR_BASE] in _TWIN_BACK:  # a pool string that is itself a digit string
+                if k >= STR_BASE and STR_POOL[k - STR_BASE] in _TWIN_BACK["str"]:  # a pool string that is itself a digit string
                     return False
     return True
 
 
+def _twin_back(v):
+    if not TWIN:
+        return None
+    try:
+        return _TWIN_BACK[TWIN].get(v)
+    except TypeError:  # unhashable
+        return None
+
+
 def encode_const(v) -> int:
-    if TWIN and isinstance(v, str) and v in _TWIN_BACK:
-        return _TWIN_BACK[v]
+    if TWIN and not isinstance(v, (bool, float)) and not (isinstance(v, int) and abs(v) < 2**40):
+        k = _twin_back(v)
+        if k is not None:
+            return k
     if v is None:
         return NONE_CODE
     if isinstance(v, bool):
